@@ -2,6 +2,20 @@
 
 package tiering
 
+import "github.com/basekick-labs/arc/internal/storage"
+
 // Verification-only accessor (C12): the real Migrator owned by a real Manager. Compiled only with
 // `-tags verif` through the build overlay; nothing is written under /repo.
 func (m *Manager) VerifMigrator() *Migrator { return m.migrator }
+
+// VerifQueryView returns a Manager that shares this Manager's MetadataStore (and therefore its
+// per-measurement tier cache), policies and config but uses the given backends. The C12 harness
+// passes the plain *storage.LocalBackend values underneath its fault-injecting wrappers, because
+// storage.GetStoragePath type-switches on the concrete backend type — in production there is one
+// Manager whose backends are the plain ones.
+func (m *Manager) VerifQueryView(hot, cold storage.Backend) *Manager {
+	q := &Manager{hotBackend: hot, coldBackend: cold, metadata: m.metadata, policies: m.policies,
+		config: m.config, licenseClient: m.licenseClient, stopCh: make(chan struct{}), logger: m.logger}
+	q.router = NewRouter(q, m.logger)
+	return q
+}
